@@ -2235,3 +2235,346 @@ theorem c20_config_noninterference (K : Keys) (E : Ext) (j : Nat) (calls : List 
       obtain ⟨ih1, ih2⟩ := ih _ w2 hw1' hw2 hk.2 (hk.1.trans heq)
       simp only [List.filter_cons, ht, decide_false, if_false, C20.resultsOn, crunCalls, Bool.false_eq_true]
       exact ⟨ih1, ih2⟩
+
+/-! ### hypotheses: the invariant of the configuration world is decidable and checked on every run;
+a class-level memo breaks the non-interference -/
+
+namespace C20
+
+theorem pairwiseDisjB_sound (cs : List Cfg) (h : pairwiseDisjB cs = true) : cs.Pairwise Disj := by
+  induction cs with
+  | nil => exact List.Pairwise.nil
+  | cons a t ih =>
+    simp only [pairwiseDisjB, Bool.and_eq_true] at h
+    refine List.Pairwise.cons ?_ (ih h.2)
+    intro b hb l hla hlb
+    have h1 := List.all_eq_true.mp h.1 b hb
+    have h2 := List.all_eq_true.mp h1 l hla
+    simp only [Bool.not_eq_true', List.contains_eq_mem, decide_eq_false_iff_not] at h2
+    exact h2 hlb
+
+end C20
+
+/-- the executable check `cinvB` (printed by the driver for the initial world of every
+configuration request and asserted by the harness) establishes the invariant the configuration
+theorems assume -/
+theorem c20_cinvB_sound (w : CWorld) (h : cinvB w = true) : C20.CInv w := by
+  simp only [cinvB, Bool.and_eq_true] at h
+  refine ⟨C20.pairwiseDisjB_sound _ h.1, ?_⟩
+  intro a ha l hl
+  have h1 := List.all_eq_true.mp h.2 a ha
+  have h2 := List.all_eq_true.mp h1 l hl
+  simpa using h2
+
+example : cinvB c20_cfgWitness = true := by decide
+
+/-- key codes / external functions of the concrete memo example: `conv u i = 100·u + i` -/
+def c20_memoK : Keys := ⟨1, 2, 3, 4, 5, 6, 7, 8, 9, 10, 11, 12⟩
+def c20_memoE : Ext :=
+  { abspath := fun v => .ok v, conv := fun u i => .ok (100 * u + i), join := fun a b => .ok (a + b),
+    vTrue := 1, vFalse := 0 }
+/-- two configurations whose internal time units are 1 and 2 -/
+def c20_memoA : Cfg := { dicts := [([], 0), ([5], 1), ([5, 6], 2)], leaves := [([5, 6, 10], 1)] }
+def c20_memoB : Cfg := { dicts := [([], 3), ([5], 4), ([5, 6], 5)], leaves := [([5, 6, 10], 2)] }
+
+/-- negative model (seeded change C20_m3b): with a class-level memo keyed by the requested unit
+only, what `to_internal_time_unit(7)` answers through configuration B depends on whether A was
+asked before — 701 (A's factor) instead of 702; the model of the current code answers 702 whatever
+happened through A (`c20_config_noninterference`). -/
+theorem c20_time_memo_counterexample :
+    (memoTime c20_memoE (memoTime c20_memoE [] c20_memoA c20_memoK 7).1 c20_memoB c20_memoK 7).2 = .ok (.val 701) ∧
+    (memoTime c20_memoE [] c20_memoB c20_memoK 7).2 = .ok (.val 702) ∧
+    (cmethod cstep c20_memoK c20_memoE { next := 6, cfgs := [c20_memoA, c20_memoB] } 1 (.toInternalTimeUnit 7)).2 =
+      .ok (.val 702) := by
+  refine ⟨rfl, rfl, rfl⟩
+
+/-! ### argument forms: stage masks and the `PDFSet` entry points -/
+
+/-- `and_check` / `or_check` / `get_joint_names` over the argument forms: an `int` and an iterable
+give the bitwise answers above, a scalar that is no `int` raises (`none`) — except in
+`get_joint_names` over no field at all -/
+theorem c20_check_forms (stage : ℕ) (fields : List (ℕ × ℕ)) :
+    (∀ m, andCheckE stage (.int m) = some (andCheck stage m) ∧ orCheckE stage (.int m) = some (orCheck stage m)) ∧
+    (∀ ms, andCheckE stage (.iter ms) = some (andCheckSeq stage ms) ∧
+        orCheckE stage (.iter ms) = some (orCheckSeq stage ms)) ∧
+    andCheckE stage .scalar = none ∧ orCheckE stage .scalar = none ∧
+    (∀ m, jointNamesE fields (.int m) = some (jointNames fields (.one m))) ∧
+    (∀ ms, jointNamesE fields (.iter ms) = some (jointNames fields (.many ms))) ∧
+    (jointNamesE fields .scalar = none ↔ fields ≠ []) := by
+  refine ⟨fun m => ⟨rfl, rfl⟩, fun ms => ⟨rfl, rfl⟩, rfl, rfl, fun m => rfl, fun ms => rfl, ?_⟩
+  cases fields <;> simp [jointNamesE]
+
+/-- the sequence forms do not depend on the order of the masks (a `set` of masks is a valid argument) -/
+theorem c20_seq_perm (s : ℕ) (ms₁ ms₂ : List ℕ) (hp : ms₁.Perm ms₂) :
+    andCheckSeq s ms₁ = andCheckSeq s ms₂ ∧ orCheckSeq s ms₁ = orCheckSeq s ms₂ := by
+  constructor
+  · rw [Bool.eq_iff_iff, c20_and_seq_iff, c20_and_seq_iff]
+    exact ⟨fun h m hm => h m (hp.mem_iff.mpr hm), fun h m hm => h m (hp.mem_iff.mp hm)⟩
+  · rw [Bool.eq_iff_iff, c20_or_seq_iff, c20_or_seq_iff]
+    exact ⟨fun ⟨m, hm, h⟩ => ⟨m, hp.mem_iff.mp hm, h⟩, fun ⟨m, hm, h⟩ => ⟨m, hp.mem_iff.mpr hm, h⟩⟩
+
+namespace C20
+section pdfset
+variable {K H P : Type} [LE K] [DecidableLE K] [DecidableEq H]
+
+omit [LE K] [DecidableLE K] in
+theorem odSet_absent {V : Type} (s : List (H × V)) (k : H) (v : V) (h : odGet s k = none) :
+    odSet s k v = s ++ [(k, v)] := by
+  induction s with
+  | nil => rfl
+  | cons p t ih =>
+    obtain ⟨k', v'⟩ := p
+    by_cases hk : k' = k
+    · simp [odGet, hk] at h
+    · simp only [odGet, hk, if_false] at h
+      simp [odSet, hk, ih h]
+
+/-- all stored PDFs have the axes of the first one, the keys are distinct -/
+def PdfInv (s : List (H × (P × Nat))) : Prop :=
+  (odKeys s).Nodup ∧ ∀ e ∈ s, ∀ e0, s.head? = some e0 → e.2.2 = e0.2.2
+
+/-- `add_pdf` calls in a row; a raising call leaves the set as it is -/
+def runAdds (h : List (K × PyVal) → H) (s : List (H × (P × Nat))) :
+    List (PdfArg P × KeyArg K H) → List (H × (P × Nat))
+  | [] => s
+  | (p, g) :: t => match addPdfE h s p g with
+      | .ok s' => runAdds h s' t
+      | .error _ => runAdds h s t
+
+theorem addPdfE_inv (h : List (K × PyVal) → H) (s s' : List (H × (P × Nat))) (p : PdfArg P) (g : KeyArg K H)
+    (hs : PdfInv s) (ha : addPdfE h s p g = .ok s') : PdfInv s' := by
+  unfold addPdfE at ha
+  cases p with
+  | notPdf => cases ha
+  | pdf q ax =>
+    cases g with
+    | key k => cases ha
+    | other => cases ha
+    | dict d =>
+      simp only at ha
+      split at ha
+      · cases ha
+      · rename_i hnone
+        have hnone' : odGet s (gridKey h d) = none := by
+          cases hg : odGet s (gridKey h d) with
+          | none => rfl
+          | some v => rw [hg] at hnone; simp at hnone
+        have hk : gridKey h d ∉ odKeys s := by
+          intro hmem
+          have : ∀ (t : List (H × (P × Nat))) (k : H), k ∈ odKeys t → odGet t k ≠ none := by
+            intro t k
+            induction t with
+            | nil => intro hm; simp [odKeys] at hm
+            | cons e t ih =>
+              obtain ⟨k1, v1⟩ := e
+              intro hm
+              by_cases he : k1 = k
+              · simp [odGet, he]
+              · have : k ∈ odKeys t := by
+                  have : k = k1 ∨ k ∈ odKeys t := by simpa [odKeys] using hm
+                  rcases this with e' | e'
+                  · exact absurd e'.symm he
+                  · exact e'
+                simp only [odGet, he, if_false]; exact ih this
+          exact this s _ hmem hnone'
+        cases s with
+        | nil =>
+          simp only [Except.ok.injEq] at ha
+          subst ha
+          refine ⟨by simp [odSet, odKeys], ?_⟩
+          intro e he e0 h0
+          simp only [odSet, List.mem_singleton] at he
+          simp only [odSet, List.head?_cons, Option.some.injEq] at h0
+          rw [he, h0]
+        | cons e0 t =>
+          obtain ⟨k0, p0, ax0⟩ := e0
+          simp only at ha
+          split at ha
+          · rename_i hax
+            simp only [Except.ok.injEq] at ha
+            subst ha
+            rw [odSet_absent _ _ _ hnone']
+            refine ⟨?_, ?_⟩
+            · simp only [odKeys, List.map_append, List.map_cons, List.map_nil]
+              exact List.Nodup.append hs.1 (by simp) (by simpa [odKeys] using hk)
+            · intro e he e1 h1
+              simp only [List.cons_append, List.head?_cons, Option.some.injEq] at h1
+              subst h1
+              rcases List.mem_append.mp he with he | he
+              · exact hs.2 e he _ rfl
+              · simp only [List.mem_singleton] at he
+                subst he
+                exact hax
+          · cases ha
+
+end pdfset
+end C20
+
+section pdfsetthms
+variable {K H P : Type} [LinearOrder K] [DecidableEq H]
+
+/-- **PDFSet keeps one set of axes**: whatever `add_pdf` calls are made (some of them raising),
+all stored PDFs have the axes of the first stored one and the keys stay distinct -/
+theorem c20_pdfset_axes_uniform (h : List (K × PyVal) → H) (adds : List (PdfArg P × KeyArg K H)) :
+    ∀ s : List (H × (P × Nat)), C20.PdfInv s → C20.PdfInv (C20.runAdds h s adds) := by
+  induction adds with
+  | nil => intro s hs; exact hs
+  | cons a t ih =>
+    intro s hs
+    obtain ⟨p, g⟩ := a
+    simp only [C20.runAdds]
+    cases ha : addPdfE h s p g with
+    | ok s' => exact ih s' (C20.addPdfE_inv h s s' p g hs ha)
+    | error e => exact ih s hs
+
+example : C20.PdfInv ([] : List (ℕ × (ℕ × ℕ))) := ⟨by simp [odKeys], by simp⟩
+
+/-- **lookup by dictionary, by key, and membership agree**: after a successful `add_pdf(pdf, d)`
+the PDF is found under `d` filled in any order, under the integer key `make_dict_hash(d)`, and
+`in` says so for both forms -/
+theorem c20_pdfset_lookup_forms (h : List (K × PyVal) → H) (s s' : List (H × (P × Nat))) (p : P) (ax : Nat)
+    (d d' : List (K × PyVal)) (ha : addPdfE h s (.pdf p ax) (.dict d) = .ok s') (hp : d.Perm d')
+    (hn : (d.map Prod.fst).Nodup) :
+    getPdfE h s' (.dict d') = .ok p ∧ getPdfE h s' (.key (gridKey h d)) = .ok p ∧
+    containsE h s' (.dict d') = .ok true ∧ containsE h s' (.key (gridKey h d)) = .ok true ∧
+    makeDictHash h (some (.dict d')) = .ok (gridKey h d) := by
+  have hk : gridKey h d' = gridKey h d := (c20_grid_key_order_indep h d d' hp hn).symm
+  have hget : odGet s' (gridKey h d) = some (p, ax) := by
+    unfold addPdfE at ha
+    simp only at ha
+    split at ha
+    · cases ha
+    · cases s with
+      | nil => simp only [Except.ok.injEq] at ha; rw [← ha, C20.odGet_odSet_self]
+      | cons e0 t =>
+        obtain ⟨k0, p0, ax0⟩ := e0
+        simp only at ha
+        split at ha
+        · simp only [Except.ok.injEq] at ha; rw [← ha, C20.odGet_odSet_self]
+        · cases ha
+  simp [getPdfE, containsE, makeDictHash, hk, hget]
+
+/-- the argument checks: a non-PDF or a non-dictionary is refused with `TypeError`, a second PDF
+for a grid point with `KeyError`, other axes than the stored ones with `ValueError`; lookups with
+a key that is neither `dict` nor `int` raise `TypeError`; `make_dict_hash(None)` is the hash of `{}` -/
+theorem c20_pdfset_argument_checks (h : List (K × PyVal) → H) (s : List (H × (P × Nat))) :
+    (∀ g, addPdfE h s (.notPdf : PdfArg P) g = .error .typeError) ∧
+    (∀ p ax k, addPdfE h s (.pdf p ax) (.key k : KeyArg K H) = .error .typeError) ∧
+    (∀ p ax, addPdfE h s (.pdf p ax) (.other : KeyArg K H) = .error .typeError) ∧
+    getPdfE h s (.other : KeyArg K H) = .error .typeError ∧
+    containsE h s (.other : KeyArg K H) = .error .typeError ∧
+    makeDictHash h (none : Option (KeyArg K H)) = .ok (gridKey h []) ∧
+    makeDictHash h (some (.other : KeyArg K H)) = .error .typeError := by
+  refine ⟨fun g => rfl, fun p ax k => rfl, fun p ax => rfl, rfl, rfl, rfl, rfl⟩
+
+end pdfsetthms
+
+/-! ### DatasetCollection -/
+
+namespace C20
+section dataset
+variable {N : Type} [DecidableEq N]
+
+theorem odGet_odErase_self {V : Type} (s : List (N × V)) (k : N) (hn : (odKeys s).Nodup) :
+    odGet (odErase s k) k = none := by
+  induction s with
+  | nil => rfl
+  | cons p t ih =>
+    obtain ⟨k', v'⟩ := p
+    have hn' : k' ∉ odKeys t ∧ (odKeys t).Nodup := by simpa [odKeys] using hn
+    by_cases hk : k' = k
+    · subst hk
+      simp only [odErase, if_true]
+      cases hg : odGet t k' with
+      | none => rfl
+      | some v => exact absurd (List.mem_map.mpr ⟨(k', v), odGet_mem t k' v hg, rfl⟩) hn'.1
+    · simp [odErase, odGet, hk, ih hn'.2]
+
+theorem odGet_odErase_ne {V : Type} (s : List (N × V)) (k k' : N) (hne : k ≠ k') :
+    odGet (odErase s k) k' = odGet s k' := by
+  induction s with
+  | nil => rfl
+  | cons p t ih =>
+    obtain ⟨k₁, v₁⟩ := p
+    by_cases h1 : k₁ = k
+    · subst h1; simp [odErase, odGet, hne]
+    · by_cases h2 : k₁ = k'
+      · subst h2; simp [odErase, odGet, h1]
+      · simp [odErase, odGet, h1, h2, ih]
+
+theorem odKeys_odErase_sub {V : Type} (s : List (N × V)) (k : N) : (odKeys (odErase s k)).Sublist (odKeys s) := by
+  induction s with
+  | nil => exact List.Sublist.refl _
+  | cons p t ih =>
+    obtain ⟨k₁, v₁⟩ := p
+    by_cases h1 : k₁ = k
+    · simp only [odErase, h1, if_true, odKeys, List.map_cons]; exact List.sublist_cons_self _ _
+    · simp only [odErase, h1, if_false, odKeys, List.map_cons]; exact List.Sublist.cons_cons _ ih
+
+theorem dsAddEach_nodup (ds : List (DsObj N)) : ∀ s : List (N × Nat), (odKeys s).Nodup →
+    (odKeys (dsAddEach s ds).1).Nodup := by
+  induction ds with
+  | nil => intro s hs; exact hs
+  | cons d t ih =>
+    intro s hs
+    simp only [dsAddEach]
+    split
+    · exact hs
+    · split
+      · exact hs
+      · exact ih _ (odKeys_nodup_odSet s d.name d.id hs)
+
+theorem dsStep_nodup (s : List (N × Nat)) (op : DsOp N) (hs : (odKeys s).Nodup) : (odKeys (dsStep s op).1).Nodup := by
+  cases op with
+  | add ds => exact dsAddEach_nodup ds s hs
+  | remove n =>
+    simp only [dsStep]
+    split
+    · exact List.Nodup.sublist (odKeys_odErase_sub s n) hs
+    · exact hs
+  | get n => simp only [dsStep]; split <;> exact hs
+
+end dataset
+end C20
+
+section datasetthms
+variable {N : Type} [DecidableEq N]
+
+/-- **DatasetCollection keeps one dataset per name** under any sequence of `add_datasets` / `+=`
+(single datasets, sequences, also when a call raises half-way) and `remove_dataset` -/
+theorem c20_dataset_names_distinct (ops : List (DsOp N)) : ∀ s : List (N × Nat), (odKeys s).Nodup →
+    (odKeys (dsRun s ops)).Nodup := by
+  induction ops with
+  | nil => intro s hs; exact hs
+  | cons op ops ih => intro s hs; exact ih _ (C20.dsStep_nodup s op hs)
+
+/-- adding a dataset under a new name makes exactly that dataset retrievable under it and leaves
+every other name as it was; removing a name makes it unknown and leaves the others -/
+theorem c20_dataset_lookup (s : List (N × Nat)) (hs : (odKeys s).Nodup) (d : DsObj N) (n' : N) :
+    (d.isDataset = true → odGet s d.name = none →
+        (dsStep s (.add [d])).2 = .ok none ∧ odGet (dsStep s (.add [d])).1 d.name = some d.id ∧
+        (d.name ≠ n' → odGet (dsStep s (.add [d])).1 n' = odGet s n')) ∧
+    (odGet (dsStep s (.remove d.name)).1 d.name = none ∧
+        (d.name ≠ n' → odGet (dsStep s (.remove d.name)).1 n' = odGet s n')) := by
+  constructor
+  · intro hd hnone
+    simp only [dsStep, dsAddEach, hd, hnone, Bool.not_true, Bool.false_eq_true, if_false, Option.isSome_none]
+    exact ⟨trivial, C20.odGet_odSet_self _ _ _, fun hne => C20.odGet_odSet_ne _ _ _ _ hne⟩
+  · simp only [dsStep]
+    split
+    · exact ⟨C20.odGet_odErase_self s d.name hs, fun hne => C20.odGet_odErase_ne s d.name n' hne⟩
+    · rename_i hnone
+      refine ⟨?_, fun _ => rfl⟩
+      cases hg : odGet s d.name with
+      | none => rfl
+      | some v => rw [hg] at hnone; simp at hnone
+
+/-- `add_datasets` of a sequence is **not atomic**: the datasets before a refused element stay
+stored (an observation about the post-state on a raising call; no clause of the property forbids
+it, the name rules above hold on the post-state). -/
+theorem c20_dataset_add_keeps_prefix :
+    dsStep ([] : List (ℕ × ℕ)) (.add [⟨1, 10, true⟩, ⟨2, 10, true⟩, ⟨3, 30, true⟩]) = ([(10, 1)], .error .keyError) ∧
+    dsStep ([] : List (ℕ × ℕ)) (.add [⟨1, 10, true⟩, ⟨2, 20, false⟩]) = ([(10, 1)], .error .typeError) := by
+  exact ⟨rfl, rfl⟩
+
+end datasetthms
